@@ -301,11 +301,30 @@ def oracle_explain(meta, resp, cnt, viols, rid):
                 bad.append(f"leg {m['rule']}")
             if (m.get("acquisition_date") or None) != (l["acq"].isoformat() if l["acq"] else None):
                 bad.append("acquisition date")
+            bad += explanation_figures(m.get("explanation", ""), l)
     tot = sum((l["gain"] for l in d["legs"]), Fraction(0))
     if abs(fr(e["total_gain_or_loss"]) - tot) > Fraction(1, 10 ** 15):
         bad.append("total")
     if bad:
         viols.append(("explain-figures-differ-from-report", f"{rid}: {bad[:3]}"))
+
+
+def explanation_figures(text, leg):
+    """Figures quoted in the free-text explanation of a leg: the share count must be the leg's quantity and the cost
+    the leg's allowable cost, shown in full or rounded to pence half away from zero."""
+    import re
+    out = []
+    m = re.search(r"Matched ([0-9.]+) shares", text)
+    if m and fr(m.group(1)) != leg["qty"]:
+        out.append(f"explanation quotes {m.group(1)} shares for a leg of {leg['qty']}")
+    m = re.search(r"Cost basis: [£]?(-?[0-9][0-9,]*\.?[0-9]*)", text)
+    if m:
+        shown = fr(m.group(1).replace(",", ""))
+        if shown != leg["cost"] and shown != round_half_away(leg["cost"], 2):
+            out.append(f"explanation quotes cost {m.group(1)} for a leg costing {leg['cost']}")
+    elif text:
+        out.append("explanation carries no cost figure")
+    return out
 
 
 def oracle_fx(meta, resp, cnt, viols, rid):
